@@ -24,6 +24,13 @@ def letter_values(f):
     return out
 
 
+def is_length(x):
+    """the number of elements of a list: Vec::len / slice len, or the slice length a slice pattern tests (PtrMetadata)"""
+    if x[0] == "call" and x[1].endswith("::len"):
+        return True
+    return x[0] in ("un", "cast") and "PtrMetadata" in str(x[1])
+
+
 def run(ctx):
     rid = "C14.R2"
     ctx.rule(rid, "SAN reader tables: piece / promotion letters map to the piece constants whose upper-case FEN letter they are (what the writer emits); file letters and rank digits map to the geometric file / rank masks; castling wings map to the c / g file", floor=30)
@@ -61,7 +68,13 @@ def run(ctx):
             else:
                 ctx.lost(rid, "unrecognised SAN token arm %r -> %s in %s" % (kw, val, ck))
     ok = seen["piece"] == set("KQRBN") and seen["promotion"] == set("QRBN") and seen["file"] == 16 and seen["rank"] == 8
-    ctx.ob(rid, "letter-sets", ok, "" if ok else "letters handled: pieces %s, promotions %s, file arms %d, rank arms %d" % (sorted(seen["piece"]), sorted(seen["promotion"]), seen["file"], seen["rank"]), "")
+    absent = [c for c in ("piece", "promotion", "file", "rank") if not seen[c]]
+    if absent and len(absent) < 4 and all((seen[c] == want) for c, want in (("piece", set("KQRBN")), ("promotion", set("QRBN")), ("file", 16), ("rank", 8)) if seen[c]):
+        # a whole class of arms is not written as string comparisons in the filter closures any more (moved into a
+        # lookup function, a table): what is there was judged arm by arm, the rest is not readable here
+        ctx.lost(rid, "the %s arms of the SAN reader as string comparisons in pgn_to_bb's closures" % " / ".join(absent))
+    else:
+      ctx.ob(rid, "letter-sets", ok, "" if ok else "letters handled: pieces %s, promotions %s, file arms %d, rank arms %d" % (sorted(seen["piece"]), sorted(seen["promotion"]), seen["file"], seen["rank"]), "")
     # castling wing -> target file
     wing = None
     for ck in closures:
@@ -120,7 +133,7 @@ def run(ctx):
             if sw["k"] != "switch":
                 continue
             d = ex.operand(sw["discr"])
-            if d[0] == "bin" and d[1] in ("Ne", "Eq") and any(x[0] == "c" and x[1] == 1 for x in (d[2], d[3])) and any(x[0] == "call" and x[1].endswith("Vec::len") for x in (d[2], d[3])):
+            if d[0] == "bin" and d[1] in ("Ne", "Eq") and any(x[0] == "c" and x[1] == 1 for x in (d[2], d[3])) and any(is_length(x) for x in (d[2], d[3])):
                 true_edge = sb == sw["otherwise"]
                 good = good or (d[1] == "Ne" and not true_edge) or (d[1] == "Eq" and true_edge)
         ctx.ob(rid, "ok-only-for-one-candidate", good, "" if good else "pgn_to_bb can return Ok without testing that exactly one legal move matches", ctx.where(f, line))
@@ -458,8 +471,11 @@ def r7_reader_structure(ctx):
         t = f["blocks"][b]["term"]
         if t["k"] == "switch":
             d = ex.operand(t["discr"])
-            if d[0] == "bin" and d[1] in ("Ne", "Eq") and any(x[0] == "c" and x[1] == 1 for x in (d[2], d[3])) and any(x[0] == "call" and x[1].endswith("::len") for x in leaves(d)):
+            if d[0] == "bin" and d[1] in ("Ne", "Eq") and any(x[0] == "c" and x[1] == 1 for x in (d[2], d[3])) and any(is_length(x) for x in list(leaves(d)) + [d[2], d[3]]):
                 count_tests.append(b)
+    if not count_tests:
+        ctx.lost(rid, "the test that exactly one candidate remains (a comparison of a length with 1)")
+        return
     ok = bool(count_tests) and all(any(cfg.dominates(lf, ct) for lf in legal_filters) or (legal_gen and not pseudo_gen and any(cfg.dominates(g_, ct) for g_ in legal_gen)) for ct in count_tests)
     ctx.ob(rid, "uniqueness-over-legal-moves", ok,
            "" if ok else "pgn_to_bb compares the number of candidates with 1 before the candidates are known to be legal (no is_move_legal filter dominates the test, and the list comes from the pseudo-legal generator): a pinned like piece makes correct SAN 'ambiguous'",
